@@ -138,7 +138,7 @@ func (t *staticTree) identify(body []byte) string {
 	}
 	// partial / concatenated content of any file also counts as "file content"
 	for rel, b := range t.content {
-		if len(b) > 0 && (bytes.Contains(body, b) || bytes.Contains(b, body)) {
+		if len(b) > 0 && (bytes.Contains(body, b) || (len(body) >= 16 && bytes.Contains(b, body))) {
 			return "~" + rel
 		}
 	}
